@@ -2,7 +2,8 @@
 with FlowParser._parse_block + SheetParser on generated RAW sheets of the model's sub-language:
 send_message rows, begin_for (loop and index variable, `a;b` cells, {@ [] @}, {@ name @} of a
 context list), begin_block, include_if (TRUE / FALSE / {{name}}), row ids and texts made of
-literals and {{name}} references, a context of strings and lists.  Loop variables are drawn from
+literals and {{name}} references, include_if also a comparison {{ name == "word" }} / {{ name != "word" }}, a context of
+strings, lists and ints (the loop index is an int: it renders as its decimal but never equals a word).  Loop variables are drawn from
 a small pool that overlaps the context keys and the variables of enclosing loops, so shadowing
 (by the loop variable, by the index variable, by an inner loop) and loops over nothing are
 ordinary cases.
@@ -29,7 +30,8 @@ KIND = {"for": (0, "begin_for"), "endfor": (1, "end_for"), "block": (2, "begin_b
         "plain": (4, "send_message")}
 ERR = {1: "unterminated", 2: "wrong-terminator", 3: "no-loop-variable", 4: "KeyError", 5: "undefined", 6: "not-a-list", 7: "FUEL"}
 VARPOOL = ["x", "y", "i", "cx", "cy"]
-CTXPOOL = ["cx", "cy", "l0", "l2", "x", "inc"]
+CTXPOOL = ["cx", "cy", "l0", "l2", "x", "inc", "n7"]
+CMPWORDS = ["a", "b", "c", "p", "CXVAL", "other", "0", "1", "7"]
 
 
 # ------------------------------------------------------------------ sub-language -> wire / cells
@@ -43,7 +45,8 @@ def enc_segs(segs):
 
 def enc_raw(r):
     inc = r["inc"]
-    e_inc = "(0)" if inc == "true" else "(1)" if inc == "false" else f"(2 {enc_str(inc[1])})"
+    e_inc = ("(0)" if inc == "true" else "(1)" if inc == "false" else f"(2 {enc_str(inc[1])})" if inc[0] == "ref"
+             else f"(3 {enc_str(inc[1])} {1 if inc[2] else 0} {enc_str(inc[3])})")
     it = r.get("iter", ("lit", []))
     e_it = f"(0 ({' '.join(enc_str(e) for e in it[1])}))" if it[0] == "lit" else f"(1 {enc_str(it[1])})"
     return (f"({KIND[r['kind']][0]} {e_inc} {enc_segs(r.get('id', []))} {enc_segs(r.get('text', []))} "
@@ -53,7 +56,7 @@ def enc_raw(r):
 def enc_ctx(ctx):
     out = []
     for k, v in ctx.items():
-        ev = f"(1 ({' '.join(enc_str(e) for e in v)}))" if isinstance(v, list) else f"(0 {enc_str(v)})"
+        ev = f"(1 ({' '.join(enc_str(e) for e in v)}))" if isinstance(v, list) else f"(2 {v})" if isinstance(v, int) else f"(0 {enc_str(v)})"
         out.append(f"({enc_str(k)} {ev})")
     return "(" + " ".join(out) + ")"
 
@@ -64,7 +67,8 @@ def sheet_csv(rows, inc_spelling):
     w.writerow(HEADER)
     for i, r in enumerate(rows):
         inc = r["inc"]
-        c_inc = inc_spelling[i] if inc in ("true", "false") else "{{" + inc[1] + "}}"
+        c_inc = (inc_spelling[i] if inc in ("true", "false") else "{{" + inc[1] + "}}" if inc[0] == "ref"
+                 else "{{ %s %s \"%s\" }}" % (inc[1], "==" if inc[2] else "!=", inc[3]))
         it = r.get("iter")
         if r["kind"] == "for":
             main = ";".join(it[1]) if (it[0] == "lit" and it[1]) else "{@ [] @}" if it[0] == "lit" else "{@ " + it[1] + " @}"
@@ -83,6 +87,8 @@ def gen_ctx(rng):
             ctx[k] = [] if k == "l0" and rng.random() < 0.8 else [rng.choice(["p", "q", "r"]) for _ in range(rng.choice([0, 1, 2]))]
         elif k == "inc":
             ctx[k] = rng.choice(["false", "FALSE", " False ", "yes", "TRUE"])
+        elif k == "n7":
+            ctx[k] = 7                     # an int: renders as 7, never equals the word "7"
         else:
             ctx[k] = rng.choice(["CXVAL", "other", "v"])
     return ctx
@@ -110,11 +116,17 @@ def gen_rows(rng, ctx):
 
     def inc(bound):
         r = rng.random()
-        if r < 0.72:
+        if r < 0.66:
             return "true"
-        if r < 0.88:
+        if r < 0.80:
             return "false"
-        return ("ref", rng.choice(["inc"] + [n for n in names(bound) if not isinstance(ctx.get(n), list)][:3]))
+        if r < 0.90:
+            return ("ref", rng.choice(["inc"] + [n for n in names(bound) if not isinstance(ctx.get(n), list)][:3]))
+        # a comparison {{ v == "word" }} / {{ v != "word" }}: mostly of a loop variable in force (so that the row / block is
+        # present in some iterations only), also of an index variable (an int), a context entry (str, list, int), an unknown name
+        pool = [n for n in bound[-2:] * 3 + [n for n in names(bound) if n != "inc"] if n]
+        var = rng.choice(pool) if pool and rng.random() < 0.93 else "ghost"
+        return ("cmp", var, rng.random() < 0.6, rng.choice(CMPWORDS))
 
     def block(depth, bound, n_items):
         for _ in range(n_items):
@@ -173,7 +185,7 @@ def model_run(m, rows, ctx):
             events.append(("push",))
         else:
             events.append(("end", dec_str(e[1])))
-    final = [(dec_str(k), [dec_str(x) for x in v[1]] if v[0] == 1 else dec_str(v[1])) for k, v in o[2]]
+    final = [(dec_str(k), [dec_str(x) for x in v[1]] if v[0] == 1 else str(v[1]) if v[0] == 2 else dec_str(v[1])) for k, v in o[2]]
     return ("ok", events, final)
 
 
@@ -370,7 +382,7 @@ def reference_desugar(rows, cx):
             elif sg not in env:
                 raise _RefError("undefined")
             else:
-                parts.append(",".join(env[sg]) if isinstance(env[sg], list) else env[sg])
+                parts.append(",".join(env[sg]) if isinstance(env[sg], list) else str(env[sg]))
         return "".join(parts)
 
     def included(r, env):
@@ -380,7 +392,10 @@ def reference_desugar(rows, cx):
         if inc[1] not in env:
             raise _RefError("undefined")
         val = env[inc[1]]
-        return (",".join(val) if isinstance(val, list) else val).strip().lower() != "false"
+        if inc[0] == "cmp":                      # Python's ==: a str equals a str; a list or an int (the index) never does
+            same = isinstance(val, str) and val == inc[3]
+            return same if inc[2] else not same
+        return (",".join(val) if isinstance(val, list) else str(val)).strip().lower() != "false"
 
     def matching_end(i):
         depth, j = 1, i + 1
@@ -412,7 +427,7 @@ def reference_desugar(rows, cx):
                     elif it[1] not in env:
                         raise _RefError("undefined")
                     else:
-                        elems = list(env[it[1]]) if isinstance(env[it[1]], list) else [env[it[1]]]
+                        elems = list(env[it[1]]) if isinstance(env[it[1]], list) else [str(env[it[1]])]
                     vs = r.get("vars", [])
                     if not vs or not vs[0]:
                         raise _RefError("no-loop-variable")
@@ -421,7 +436,7 @@ def reference_desugar(rows, cx):
                         env2 = dict(env)
                         env2[vs[0]] = e
                         if len(vs) > 1 and vs[1]:
-                            env2[vs[1]] = str(n)
+                            env2[vs[1]] = n            # an int
                         body(i + 1, end, env2)
                 out.append(("endblock", "", ""))      # (generated terminators carry no template)
             i = end + 1
@@ -475,6 +490,21 @@ DIRECTED = [
                        P([L_("bye:"), R_("cx")])]),
     ({}, [P([L_("hi")], rid="1"), FOR(["x"], ("lit", ["a", "b"])), FOR(["y"], ("lit", [])), P([R_("y")]), ENDFOR, P([L_("in:"), R_("x")]), ENDFOR,
           P([L_("bye")])]),
+    # comparison cells: a block present in the SECOND copy of the body only, inside it rows whose own include_if is false there
+    # (first met while the block is skipped, then read normally); the index is an int and never equals the word "0"
+    ({"inc": "false"}, [P([L_("hi")], rid="1"), FOR(["x", "i"], ("lit", ["a", "b"]), "2"),
+                        dict(kind="block", inc=("cmp", "x", True, "b"), id=[]),
+                        P([L_("in:"), R_("x")], inc=("cmp", "x", False, "b")), P([L_("also:"), R_("x")], inc=("ref", "inc")),
+                        P([L_("kept:"), R_("x")], inc=("cmp", "x", False, "a")),
+                        dict(kind="endblock", inc="true"),
+                        P([L_("idx:"), R_("i")], inc=("cmp", "i", True, "0")), P([L_("idx-ne:"), R_("i")], inc=("cmp", "i", False, "0")),
+                        ENDFOR, P([L_("bye")])]),
+    # ... the same with an inner loop as the conditional part, and a list / an unknown name compared
+    ({"l2": ["p"]}, [P([L_("hi")], rid="1"), FOR(["x"], ("lit", ["a", "b", "a"]), "2"),
+                     dict(kind="for", inc=("cmp", "x", False, "a"), id=[], vars=["y"], iter=("lit", ["p", "q"])),
+                     P([L_("y:"), R_("y")], inc=("cmp", "y", True, "q")), ENDFOR,
+                     P([L_("list:"), R_("x")], inc=("cmp", "l2", True, "p")), ENDFOR, P([L_("bye")])]),
+    ({}, [P([L_("hi")], rid="1"), P([L_("never")], inc=("cmp", "ghost", False, "a"))]),
 ]
 
 
@@ -543,6 +573,7 @@ def judge(ctx, rows, cx, spell, dist, nontrivial):
     shadow, empty = sheet_classes(rows, cx)
     dist["with_shadowing"] += shadow
     dist["with_empty_loop"] += empty
+    dist["with_comparison_cell"] += any(isinstance(r["inc"], tuple) and r["inc"][0] == "cmp" for r in rows)
     key = "empty-loop" if empty else "loop-variable-shadows-outer-variable" if shadow else "loop-mechanics"
     never = sorted(unevaluated_positions(rows)) if well_nested(rows) else []
     dist["with_excluded_block"] += bool(never)
@@ -607,7 +638,7 @@ def run(ctx, n):
     """the directed cases, then n generated sheets; returns the set of non-trivial cases"""
     rng = ctx.rng
     dist = {"ok": 0, "err": 0, "graph_error_outside_model": 0, "with_shadowing": 0, "with_empty_loop": 0, "with_excluded_block": 0,
-            "scope_oracle_checked": 0, "reference_reading_ok": 0, "desugar_vs_reference": 0, "desugared_compiled": 0,
+            "with_comparison_cell": 0, "scope_oracle_checked": 0, "reference_reading_ok": 0, "desugar_vs_reference": 0, "desugared_compiled": 0,
             "desugared_budget": max(60, n * 2 // 5)}
     nontrivial = set()
     if ctx.model:
